@@ -180,8 +180,8 @@ Print Assumptions C12_both_D5_refuted.
 (* ====================================================================== *)
 (* A6. the delta kernel                                                     *)
 (* ====================================================================== *)
-(* CDF is the weighted empirical distribution function (no boundary; inside one boundary, with
-   0 at BoundaryMin / 1 from BoundaryMax); the "density" is +Inf exactly at the data points *)
+(* CDF is the weighted empirical distribution function (no boundary; inside one or two
+   boundaries, with 0 at BoundaryMin / 1 from BoundaryMax); the "density" is +Inf exactly at the data points *)
 Theorem C12_delta_kernel : forall k : kde, kde_ok_delta k -> k_kernel k = KDelta ->
   (k_b k = BNone -> forall x : Q,
      (exists c : Q, kde_cdf k x = Some (XFin c) /\ c == wecdf (kde_ps k) x) /\
@@ -190,7 +190,9 @@ Theorem C12_delta_kernel : forall k : kde, kde_ok_delta k -> k_kernel k = KDelta
   (forall m lo hi x : Q, k_b k = BLower m -> pairs_within lo hi (kde_ps k) -> m <= lo ->
      exists c : Q, kde_cdf k x = Some (XFin c) /\ (x <= m -> c == 0) /\ (m < x -> c == wecdf (kde_ps k) x)) /\
   (forall M lo hi x : Q, k_b k = BUpper M -> pairs_within lo hi (kde_ps k) -> hi <= M ->
-     exists c : Q, kde_cdf k x = Some (XFin c) /\ (M <= x -> c == 1) /\ (x < M -> c == wecdf (kde_ps k) x)).
+     exists c : Q, kde_cdf k x = Some (XFin c) /\ (M <= x -> c == 1) /\ (x < M -> c == wecdf (kde_ps k) x)) /\
+  (forall m M x : Q, k_b k = BBoth m M -> pairs_within m M (kde_ps k) -> m < M -> m <= x /\ x < M ->
+     exists c : Q, kde_cdf k x = Some (XFin c) /\ (x == m -> c == 0) /\ (m < x -> c == wecdf (kde_ps k) x)).
 Proof. exact Proofs.KdeGroups.G_delta_kernel. Qed.
 Print Assumptions C12_delta_kernel.
 
